@@ -4450,6 +4450,11 @@ class EntityMeta(type):
                     cache.seeds[pk_attrs].add(obj)
                 elif status == 'created':
                     assert undo_funcs is not None
+                    def undo_func():
+                        cache.objects.discard(obj)
+                        cache.for_update.discard(obj)
+                        if pkval is not None and cache_index.get(pkval) is obj: del cache_index[pkval]
+                    undo_funcs.append(undo_func)
                     obj._rbits_ = obj._wbits_ = None
                     for attr, val in pairs:
                         obj._vals_[attr] = val
